@@ -331,7 +331,7 @@ def part_symfiles(ctx, h):
     d = os.path.join(ctx.scratch, "symfiles")
     os.makedirs(d, exist_ok=True)
     cases = []       # (tag, tab_or_None, path, bid, saved_bytes_or_None, file_bytes, loaded_tab)
-    for i in range(ctx.n(40, 500)):
+    for i in range(ctx.n(30, 500)):
         tab = gen_file_tab(rng)
         if i % 4 == 3:      # tables outside the round-trip guard are still saved/loaded faithfully
             tab = gen_table(rng, rng.choice(["wf", "dup", "ends"]))
@@ -486,7 +486,7 @@ def part_maps(ctx, h, objdir):
     d = os.path.join(ctx.scratch, "maps")
     os.makedirs(d, exist_ok=True)
     cases = []
-    for i in range(ctx.n(60, 600)):
+    for i in range(ctx.n(40, 600)):
         txt = gen_map_text(rng)
         open(os.path.join(d, "sid-%016x.map" % i), "wb").write(txt)
         kb, ms = parse_maps(h.run(["READMAP %s %016x %s" % (d, i, hx("/usr/bin/prog"))]))
@@ -541,7 +541,7 @@ def part_maps_writer(ctx, h, objdir, d):
     build.cc([src] + build.libmcount_objs(objdir, ""), exe, objdir,
              extra=build.LINK_LIBS + ["-Wl,--wrap=fopen"])
     out = []
-    for i in range(ctx.n(20, 300)):
+    for i in range(ctx.n(14, 300)):
         segs = []
         a = rng.choice([0x400000, 0x555555554000])
         mods = ["/usr/bin/prog", "/lib/libc.so.6", "/lib/libfoo.so", "/opt/a/libfoo.so", "/lib/ld.so"]
@@ -830,7 +830,7 @@ D_DEFS = """Definition ans_eqb (m : option sym) (a : option (Z * Z * str)) : boo
 def part_datadirs(ctx, h):
     rng = ctx.rng
     cases = []
-    for i in range(ctx.n(24, 300)):
+    for i in range(ctx.n(18, 300)):
         withsyms = (i % 5 == 4)
         st = gen_story(rng, big=(i % 3 == 0), withsyms=withsyms)
         d = os.path.join(ctx.scratch, "dd%d" % (i % 4))
